@@ -73,10 +73,14 @@ def _mixture(d, ctx, kind, **kw):
     require_close(p11, p12, 'predict-depends-on-magnitude', atol=1e-7,
                   kind=kind)
     p22 = ctx.lib(mm.predict, m2, scaled)
-    require_close(p11, p22, 'fit-predict-depends-on-magnitude', atol=1e-6,
+    # two separately fitted Bingham models agree only to the termination
+    # tolerance of the bounded least-squares solver (eigenvalues to ~1e-4,
+    # compared at 1e-3 above); the posteriors inherit that
+    two_fits = 1e-3 if kind == 'cbmm' else 1e-6
+    require_close(p11, p22, 'fit-predict-depends-on-magnitude', atol=two_fits,
                   kind=kind)
     fp = ctx.lib(mm.fit, scaled, method='fit_predict')
-    require_close(p11, fp, 'fit_predict-depends-on-magnitude', atol=1e-6,
+    require_close(p11, fp, 'fit_predict-depends-on-magnitude', atol=two_fits,
                   kind=kind)
     if kind == 'cacgmm':
         l1 = float(ctx.lib(m1.log_likelihood, case.y))
